@@ -34,8 +34,16 @@ import (
 // of a head set encode to one CID; the pinned interoperability vectors and the v0/v1
 // fixtures hash and decode bit-exactly.
 
+// linkKeyIO: the key of a seed is SHA-256(seed); a seed of the form "K1^n" is K1's key with bit 0 of byte n flipped
+// (a key one bit away from the writer's is a different key).
 func linkKeyIO(seed string) iface.IO {
 	k := sha256.Sum256([]byte(seed))
+	if i := strings.Index(seed, "^"); i > 0 {
+		k = sha256.Sum256([]byte(seed[:i]))
+		n := 0
+		fmt.Sscan(seed[i+1:], &n)
+		k[n] ^= 1
+	}
 	buf := append([]byte{}, k[:]...)
 	sk, err := enc.NewSecretbox(buf)
 	if err != nil {
